@@ -9,7 +9,7 @@
 (* entry; a decoder that walks the same order consumes exactly the bits    *)
 (* written.  Books are referenced by their 0-based index in the set-up.    *)
 (***************************************************************************)
-EXTENDS Setup, Codebook
+EXTENDS Setup, Codebook, Floor1
 
 Word(s, book, entry) == LET b == s.books[book + 1] cw == Codewords(b.lens) IN WordBits(cw[entry].w, b.lens[entry])
 UsedEntries(b) == { j \in 1..Len(b.lens) : b.lens[j] > 0 }
@@ -18,16 +18,25 @@ Pick(s, book, salt) == LET b == s.books[book + 1] U == UsedEntries(b) n == Cardi
                        IN CHOOSE a \in U : Cardinality({ x \in U : x < a }) = k
 
 QBits(f) == ILog((CASE f.mult = 1 -> 256 [] f.mult = 2 -> 128 [] f.mult = 3 -> 86 [] OTHER -> 64) - 1)
-\* floor 1, channel in use: flag, two end posts, then per partition the class codeword (if the class has sub-classes) and one codeword per post
+\* floor 1, channel in use.  The choices first: the class codeword value of every partition and the raw value of every post
+\* (entry numbers are 1-based in the model, the value a scalar codebook yields is entry - 1)
+F1Cval(s, f, i, salt) == LET c == f.parts[i] + 1 IN IF f.csubs[c] > 0 THEN Pick(s, f.cbook[c], salt + i) - 1 ELSE 0
+F1Sub(s, f, i, j, salt) == LET c == f.parts[i] + 1 IN f.csub[c][1 + ((F1Cval(s, f, i, salt) \div IPow(Pow2(f.csubs[c]), j - 1)) % Pow2(f.csubs[c]))]
+F1Entry(s, f, i, j, salt) == Pick(s, F1Sub(s, f, i, j, salt), salt + 5 * i + j)
+Floor1Raw(s, f, salt) ==
+  << (17 + salt) % 64, (40 + 3 * salt) % 64 >> \o
+  Cat([i \in 1..Len(f.parts) |-> [j \in 1..f.cdim[f.parts[i] + 1] |-> IF F1Sub(s, f, i, j, salt) >= 0 THEN F1Entry(s, f, i, j, salt) - 1 ELSE 0]])
+\* ... then the bits: flag, two end posts, per partition the class codeword (if the class has sub-classes) and one codeword per post that has a book
 Floor1Bits(s, f, salt) ==
   << <<1, 1>>, <<(17 + salt) % 64, QBits(f)>>, <<(40 + 3 * salt) % 64, QBits(f)>> >> \o
   Cat([i \in 1..Len(f.parts) |->
-        LET c == f.parts[i] + 1
-            cval == IF f.csubs[c] > 0 THEN Pick(s, f.cbook[c], salt + i) - 1 ELSE 0
-        IN (IF f.csubs[c] > 0 THEN Word(s, f.cbook[c], cval + 1) ELSE <<>>) \o
-           Cat([j \in 1..f.cdim[c] |->
-                 LET sub == f.csub[c][1 + ((cval \div IPow(Pow2(f.csubs[c]), j - 1)) % Pow2(f.csubs[c]))]
-                 IN IF sub >= 0 THEN Word(s, sub, Pick(s, sub, salt + 5 * i + j)) ELSE <<>>])])
+        LET c == f.parts[i] + 1 IN
+        (IF f.csubs[c] > 0 THEN Word(s, f.cbook[c], F1Cval(s, f, i, salt) + 1) ELSE <<>>) \o
+        Cat([j \in 1..f.cdim[c] |-> IF F1Sub(s, f, i, j, salt) >= 0 THEN Word(s, F1Sub(s, f, i, j, salt), F1Entry(s, f, i, j, salt)) ELSE <<>>])])
+\* what the decoder must make of it: the posts after unwrapping (unused posts carry the flag 32768) and the table index at every bin
+F1X(f) == <<0, Pow2(f.rb)>> \o f.posts
+Floor1Fit(s, f, salt) == LET u == Unwrap(F1X(f), Floor1Raw(s, f, salt), f.mult) IN [i \in 1..Len(u.Y) |-> IF u.U[i] THEN u.Y[i] ELSE u.Y[i] + 32768]
+Floor1Curve(s, f, salt, n) == LET u == Unwrap(F1X(f), Floor1Raw(s, f, salt), f.mult) IN Curve(F1X(f), u.Y, u.U, f.mult, n)
 
 \* residue: number of partitions to read and classification words
 PartVals(r, halfblock, nch) == LET mx == IF r.type = 2 THEN halfblock * nch ELSE halfblock
